@@ -23,6 +23,7 @@ type vfState struct {
 	pos    int
 	covers []string
 	failed string
+	tier   string
 }
 
 var vfS vfState
@@ -104,3 +105,14 @@ func vfCheck(c bool, what string) {
 	}
 }
 func vfFail(what string) { panic(vfCheckFailed{what}) }
+
+// vfBound returns q in the quick tier and t in the thorough tier.
+func vfBound(q, t int) int {
+	if vfS.tier == "thorough" {
+		return t
+	}
+	return q
+}
+
+// vfHarnesses is the registry used by the native replay test.
+var vfHarnesses = map[string]func(){}
